@@ -58,7 +58,9 @@ fn hadamard_entry(i: usize, j: usize) -> f64 {
 
 /// n×p base data with O(1) column spread and (roughly) zero mean; may change n for kinds with a fixed design
 fn base_matrix(rng: &mut Rng, n: usize, p: usize) -> (Mat, &'static str) {
-    match rng.below(8) {
+    // the kinds built from an n×n orthogonal factor are cubic in n: not for the `large` family
+    let kind = if scverif::big() > 0 { *rng.pick(&[0, 1, 3, 4, 6]) } else { rng.below(8) };
+    match kind {
         0 => {
             let g = Mat::randn(rng, n, p);
             let m = Mat::randn(rng, p, p);
@@ -145,6 +147,10 @@ fn dress<T: RealNumber>(rng: &mut Rng, base: &Mat) -> (Mat, f64, f64) {
 /// (n, p): 2 ≤ n ≤ 80, pmin ≤ p ≤ 8; n ≤ p (covariance/EVD path) with probability 0.4 when p ≥ 2
 fn draw_shape(rng: &mut Rng, pmin: usize) -> (usize, usize) {
     let p = rng.us(pmin, 8);
+    // the `large` family: more than a thousand rows
+    if scverif::big() > 0 {
+        return (rng.us(1025, 2600), p);
+    }
     if p >= 2 && rng.bool(0.4) {
         (rng.us(2, p), p)
     } else {
@@ -337,6 +343,7 @@ fn pca_reference<T: RealNumber>(c: &mut Case, x: &Mat, corr: bool) -> Option<Pca
 }
 
 fn check_pca<T: RealNumber>(c: &mut Case, d: &Data, corr: bool) {
+    let idx = c.index;
     let x = &d.x;
     let (n, p) = (x.r, x.c);
     let nn = n as f64;
@@ -359,7 +366,7 @@ fn check_pca<T: RealNumber>(c: &mut Case, d: &Data, corr: bool) {
     let (ta, to, ts) = (tau_aff::<T>(n, p), tau_orth::<T>(p), tau_stat::<T>());
     for k in 1..=p {
         let params = PCAParameters::default().with_n_components(k).with_use_correlation_matrix(corr);
-        let pca: PCA<T, DenseMatrix<T>> = match c.must("PCA::fit", || PCA::fit(&xm, params)) {
+        let pca: PCA<T, DenseMatrix<T>> = match c.must("PCA::fit", || PCA::fit(&xm, scverif::reused(idx, params))) {
             Some(Ok(m)) => {
                 c.check("pca.fit-ok", true, &sg, String::new);
                 m
@@ -696,6 +703,16 @@ fn api_paths_fam(c: &mut Case) {
     scverif::apipaths::case(c, "C14")
 }
 
+/// PCA (both modes) and truncated SVD on 1025..2600 rows (beyond the ordinary bound of 80)
+fn large(c: &mut Case) {
+    let g = c.index % 3;
+    scverif::with_big(1, || match g {
+        0 => pca_cov(c),
+        1 => pca_corr(c),
+        _ => tsvd(c),
+    })
+}
+
 fn main() {
     runner::main(Spec {
         property: "C14",
@@ -716,6 +733,7 @@ fn main() {
             Family::new("pca_rankdef", 4000, 60000, pca_rankdef),
             Family::new("tsvd", 3000, 50000, tsvd),
             Family::new("tsvd_rankdef", 2000, 30000, tsvd_rankdef),
+            Family::new("large", 600, 12000, large),
             Family::new("tiny_grid", GRID_QUICK_N, GRID_THOROUGH_N, tiny_grid).exhaustive(true, true),
         ],
         min_nontrivial: 3000,
